@@ -92,6 +92,9 @@ def analyse(prog, lines):
             findings.append(("C01", "count or pointee touched after destruction: %s (trace line %d)" % (" ".join(e.f), e.i + 1)))
             if e.f and e.f[0] == "DeadDec":
                 findings.append(("C02", "double release: %s (trace line %d)" % (" ".join(e.f), e.i + 1)))
+            elif e.f and e.f[0] == "DeadInc":
+                findings.append(("C02", "a value was destroyed while a guard or handle that still counts as an owner existed (its count reached zero early): %s (trace line %d)" % (" ".join(e.f), e.i + 1)))
+            findings.append(("C10", "a guard's value was destroyed while the guard existed: %s (trace line %d)" % (" ".join(e.f), e.i + 1)))
         elif e.kind == "PANIC":
             findings.append(("C13", "operation panicked: %s (trace line %d)" % (" ".join(e.f), e.i + 1)))
         elif e.kind in ("SOLO-LIMIT", "SOLO-BLOCKED"):
@@ -220,6 +223,7 @@ def analyse(prog, lines):
                         findings.append(("C05", "thread %d cmd %d (%s): replaced %d which is not current %d" % (t, k, " ".join(cmd), ws[0][1], cur)))
                     if addr == cur and not ws:
                         findings.append(("C05", "thread %d cmd %d (%s): returned current (%d) but did not store new" % (t, k, " ".join(cmd), cur)))
+                        findings.append(("C04", "thread %d cmd %d (%s): compare_and_swap reported success (returned current %d) without a write: the reported writes do not form a chain" % (t, k, " ".join(cmd), cur)))
             if name == "rcu" and kind == "P":
                 ws = writes_by_cmd.get((t, k), [])
                 if ws:
